@@ -8,7 +8,7 @@ import random
 
 import numpy as np
 
-from .. import engine, expo, obs, ref, world
+from .. import engine, expo, obs, ref, sched, world
 
 ID = "C09"
 LEVEL = "fault_enumeration"
@@ -31,7 +31,7 @@ K = {"quick": 12, "thorough": 24}
 from ..probes import EXC as _EXC  # noqa: E402
 
 EXCS = sorted(_EXC)
-REQUIRED_REACH = ["variant:calibration", "cal_phase:initial", "cal_phase:evolution", "variant:exposure", "variant:obs-seq", "variant:obs-par", "par_failure_lazy", "par_failure_eager", "later_run_fails"] + ["exc:" + e for e in EXCS]
+REQUIRED_REACH = ["entry:file", "error_already_noted", "variant:calibration", "cal_phase:initial", "cal_phase:evolution", "variant:exposure", "variant:obs-seq", "variant:obs-par", "par_failure_lazy", "par_failure_eager", "later_run_fails"] + ["exc:" + e for e in EXCS]
 
 
 def _base(rng, tier):
@@ -119,7 +119,11 @@ def generate_indexed(seed, i, tier):
             f = {"step": inj["step"], "exc": inj["exc"]}
             if inj["level"] is not None:
                 f["level"] = inj["level"]
+            if (i // 3) % 4 == 1:
+                f["noted"] = True  # the error leaves the model with a note of its own already attached
             m["arguments"]["fail"] = f
+    if scn["variant"] == "exposure" and (i // 5) % 3 == 1:
+        scn["entry"] = "file"  # started through pyxel.run(<yaml file>), no outputs section
     if "sched" in scn:
         scn["sched"]["sim_seed"] = engine.splitmix(seed, "C09-sim", i) % (2**31)
     return scn
@@ -236,16 +240,50 @@ def execute_calibration(scn, forced=None):
     }
 
 
+def _run_via_file(scn):
+    """The same exposure started through the file entry point."""
+    import os
+
+    import pyxel
+
+    from .. import probes
+
+    world.reset_process_state()
+    rec = {"exc": None, "tree": None}
+    with world.Scratch() as scratch:
+        path = os.path.join(scratch, "config.yaml")
+        with open(path, "w") as fh:
+            fh.write(world.to_yaml(scn))
+        cwd = os.getcwd()
+        os.chdir(scratch)
+        try:
+            rec["returned"] = pyxel.run(path)
+        except sched.HarnessError:
+            raise
+        except BaseException as exc:  # noqa: BLE001
+            rec["exc"] = exc
+        finally:
+            os.chdir(cwd)
+    rec["hist"] = list(probes.HIST)
+    return rec
+
+
 def execute(scn, forced=None):
     if scn.get("variant") == "calibration":
         return execute_calibration(scn, forced)
     viol, stats = [], {}
     variant, inj = scn["variant"], scn["inject"]
     stats["variant:" + variant] = 1
+    if any((m["arguments"].get("fail") or {}).get("noted") for _, m in world.all_models(scn)):
+        stats["error_already_noted"] = 1
     stats["exc:" + inj["exc"]] = 1
     sim_time, simd, digest = 0.0, {}, ""
     if variant == "exposure":
-        a = expo.run_exposure(scn, debug=scn["debug"])
+        if scn.get("entry") == "file":
+            stats["entry:file"] = 1
+            a = _run_via_file(scn)
+        else:
+            a = expo.run_exposure(scn, debug=scn["debug"])
         exp = expo.expected_events(scn)
         cut = next(k + 1 for k, (s, n, _a) in enumerate(exp) if s == inj["step"] and n == inj["model"])
         if a["exc"] is None:
